@@ -636,7 +636,7 @@ class Driver:
         self.mon = None
         self.dims = [2, 3, 4] if ctx.tier == 'quick' else [2, 3, 4, 5, 6]
         self.nseed = 1 if ctx.tier == 'quick' else 2
-        self.scales = [0.3, 3, 30, 100]
+        self.scales = [1e-9, 0.3, 3, 30, 100]  # 1e-9: tiny parameters (normalising maps must not use absolute regularisers)
 
     def mine(self):
         self.counter += 1
@@ -697,7 +697,7 @@ class Driver:
                                     else:
                                         f(t, *extra_args)
 
-    def module(self, name, ctor, kwargs_list, scales=(None, 3.0, 30.0), precheck=None):
+    def module(self, name, ctor, kwargs_list, scales=(None, 1e-9, 3.0, 30.0), precheck=None):
         ctx, torch = self.ctx, self.torch
         for kw in kwargs_list:
             if not self.mine():
@@ -855,7 +855,7 @@ def run_stiefel(D, which):
                     D.call('to_stiefel_qr', M.to_stiefel_qr, f * dim * rank, (dim, rank), d, structured=False)
                     n = f * (dim * rank - rank * (rank + 1) // 2)
                     if n > 0:
-                        D.call('to_stiefel_choleskyL', M.to_stiefel_choleskyL, n, (dim, rank), d, scales=[0.3, 3, 10],
+                        D.call('to_stiefel_choleskyL', M.to_stiefel_choleskyL, n, (dim, rank), d, scales=[1e-9, 0.3, 3, 10],
                                precheck=lambda th, dim=dim, rank=rank: D.illcond(th, dim, rank, 'chol'))
                 else:
                     N0 = dim * rank - rank * (rank + 1) // 2
@@ -883,7 +883,7 @@ def run_stiefel(D, which):
         def pre(m):
             lay = {'polar': 'full', 'choleskyL': 'chol'}.get(m.method)
             return lay is not None and D.illcond(m.theta.detach().numpy(), m.dim, m.rank, lay)
-        D.module('Stiefel', M.Stiefel, kws, scales=(None, 3.0, 10.0), precheck=pre)
+        D.module('Stiefel', M.Stiefel, kws, scales=(None, 1e-9, 3.0, 10.0), precheck=pre)
 
 
 def run_compose(D):
@@ -919,7 +919,7 @@ def run_compose(D):
         sm = m.manifold
         lay = {'polar': 'full', 'choleskyL': 'chol'}.get(sm.method)
         return lay is not None and D.illcond(sm.theta.detach().numpy(), sm.dim, sm.rank, lay)
-    D.module('QuantumChannel', M.QuantumChannel, kws, scales=(None, 3.0, 10.0), precheck=pre)
+    D.module('QuantumChannel', M.QuantumChannel, kws, scales=(None, 1e-9, 3.0, 10.0), precheck=pre)
 
 
 class _DriverGuard:
